@@ -65,17 +65,24 @@ func runMeta(c *Ctx) {
 		size   int
 		toks   []string
 		alen   int
+		decl   string
 	}
-	tiers := []tier{{leavesFull, size, toks, alen}, {leavesNest, 4, []string{"x", "-a", "--"}, 3}}
+	tokMetaAlt := []string{"x", "v", "--", "-a", "--aa", "-n", "-m", "-nm", "-mn", "-na", "-o", "-ov", "-o=v", "--out=v", "--out", "--output=v", "--output"}
+	tiers := []tier{{leavesFull, size, toks, alen, ""}, {leavesNest, 4, []string{"x", "-a", "--"}, 3, ""}, {leavesAlt, 2, tokMetaAlt, 3, "alt"}}
 	if c.Thorough() {
-		tiers = []tier{{leavesFull, 3, tokMeta, 3}, {leavesFull, 3, tokMetaSm, 4}, {leavesMid, 4, tokMetaSm, 3}, {leavesNest, 5, []string{"x", "-a", "--", "-"}, 3}}
+		tiers = []tier{{leavesFull, 3, tokMeta, 3, ""}, {leavesFull, 3, tokMetaSm, 4, ""}, {leavesMid, 4, tokMetaSm, 3, ""}, {leavesNest, 5, []string{"x", "-a", "--", "-"}, 3, ""}, {leavesAlt, 3, tokMetaAlt, 3, "alt"}}
 	}
 	idx := 0
 	var asLang []langTier
 	for _, t := range tiers {
-		asLang = append(asLang, langTier{leaves: t.leaves, maxSize: t.size, toks: t.toks, maxLen: t.alen})
+		asLang = append(asLang, langTier{leaves: t.leaves, maxSize: t.size, toks: t.toks, maxLen: t.alen, decl: t.decl})
 	}
+	std := d
 	for ti, t := range tiers {
+		d := std
+		if t.decl != "" {
+			d = ref.DeclByName(t.decl)
+		}
 		g := ref.NewSpecGen(t.leaves)
 		argvsAll := ref.Argvs(t.toks, t.alen)
 		nfree, nend := 0, 0
@@ -96,13 +103,13 @@ func runMeta(c *Ctx) {
 				}
 				if withEnd {
 					// part 2 of C09, once per spec (a spec of an earlier tier is not repeated)
-					if c.On("C09") && len(newCoverage(asLang[:ti], spec, n, false).toks) == 0 {
+					if c.On("C09") && len(newCoverageDecl(asLang[:ti], spec, n, false, t.decl).toks) == 0 {
 						metaEndSpecs(c, d, spec)
 					}
 					continue
 				}
 				// base command lines already explored for this spec by an earlier tier are skipped
-				cov := newCoverage(asLang[:ti], spec, n, false)
+				cov := newCoverageDecl(asLang[:ti], spec, n, false, t.decl)
 				var argvs [][]string
 				for _, a := range argvsAll {
 					if !cov.covers(a) {
@@ -136,6 +143,11 @@ func metaKey(spec string, a, b []string) string {
 	return fmt.Sprintf("spec=%q argv=%q vs argv=%q", spec, a, b)
 }
 
+// metaCase builds the replayable case of a metamorphic pair.
+func metaCase(t *outcomeTable, a, b []string, rel string) Case {
+	return Case{"spec": t.spec, "argv": a, "argv2": b, "rel": rel, "decl": declName(t.d)}
+}
+
 // ---- C09 part 1: inserting `--` anywhere in the trailing block of non-dash positionals changes nothing
 func metaC09(c *Ctx, t *outcomeTable, argvs [][]string, rd []ref.Reading) {
 	for i, argv := range argvs {
@@ -164,7 +176,7 @@ func metaC09(c *Ctx, t *outcomeTable, argvs [][]string, rd []ref.Reading) {
 				c.Count("C09:nontrivial", 1)
 			}
 			if got != base {
-				c.Violation("C09", metaKey(t.spec, argv, w), Case{"spec": t.spec, "argv": argv, "argv2": w, "rel": "C09"},
+				c.Violation("C09", metaKey(t.spec, argv, w), metaCase(t, argv, w, "C09"),
 					"same outcome after inserting `--` at position "+fmt.Sprint(p)+": "+base, got)
 			} else if c.WantSample("C09:insertion") && base != "R" && len(argv) >= 2 {
 				c.Sample("C09:insertion", Case{"spec": t.spec, "argv": argv, "with_marker": w, "outcome_both": base})
@@ -215,7 +227,7 @@ func metaC10(c *Ctx, t *outcomeTable, argvs [][]string, rd []ref.Reading) {
 			c.Count("C10:nontrivial", 1)
 		}
 		if out != b.out {
-			c.Violation("C10", metaKey(t.spec, b.first, argv), Case{"spec": t.spec, "argv": b.first, "argv2": argv, "rel": "C10"},
+			c.Violation("C10", metaKey(t.spec, b.first, argv), metaCase(t, b.first, argv, "C10"),
 				"same outcome for two spellings of the same occurrences: "+b.out, out)
 		} else if c.WantSample("C10:respelling") && out != "R" && len(argv) >= 2 && strings.Join(argv, " ") != strings.Join(b.first, " ") {
 			c.Sample("C10:respelling", Case{"spec": t.spec, "spelling_1": b.first, "spelling_2": argv, "outcome_both": out})
@@ -288,7 +300,7 @@ func metaC11(c *Ctx, t *outcomeTable, argvs [][]string, rd []ref.Reading) {
 				c.Count("C11:nontrivial", 1)
 			}
 			if base != got {
-				c.Violation("C11", metaKey(t.spec, argv, w), Case{"spec": t.spec, "argv": argv, "argv2": w, "rel": "C11"},
+				c.Violation("C11", metaKey(t.spec, argv, w), metaCase(t, argv, w, "C11"),
 					"same outcome after moving a folded token past an adjacent occurrence of a different option: "+base, got)
 			}
 		}
@@ -325,7 +337,7 @@ func metaC11(c *Ctx, t *outcomeTable, argvs [][]string, rd []ref.Reading) {
 				c.Count("C11:nontrivial", 1)
 			}
 			if base != got {
-				c.Violation("C11", metaKey(t.spec, argv, w), Case{"spec": t.spec, "argv": argv, "argv2": w, "rel": "C11"},
+				c.Violation("C11", metaKey(t.spec, argv, w), metaCase(t, argv, w, "C11"),
 					"same outcome after swapping two adjacent occurrences of different options: "+base, got)
 			} else if c.WantSample("C11:swap") && base != "R" && len(argv) >= 2 {
 				c.Sample("C11:swap", Case{"spec": t.spec, "argv": argv, "swapped": w, "outcome_both": base})
@@ -378,7 +390,7 @@ func metaEndSpecs(c *Ctx, d *ref.Decl, spec string) {
 			if v.Accept {
 				exp = "accepted, tokens after the marker bound verbatim: " + strings.Join(v.Binds, " / ")
 			}
-			c.Violation("C09", fmt.Sprintf("spec=%q argv=%q", spec, argv), Case{"spec": spec, "argv": argv, "rel": "C09-spec"}, exp, got)
+			c.Violation("C09", fmt.Sprintf("spec=%q argv=%q", spec, argv), Case{"spec": spec, "argv": argv, "rel": "C09-spec", "decl": declName(d)}, exp, got)
 		} else if c.WantSample("C09:spec-level") && v.Accept && len(argv) >= 2 {
 			c.Sample("C09:spec-level", Case{"spec": spec, "argv": argv, "outcome": got})
 		}
@@ -386,7 +398,7 @@ func metaEndSpecs(c *Ctx, d *ref.Decl, spec string) {
 }
 
 func replayMeta(c *Ctx, cs Case) {
-	d := ref.Std()
+	d := ref.DeclByName(cStr(cs, "decl"))
 	spec := cStr(cs, "spec")
 	rel := cStr(cs, "rel")
 	if rel == "C09-spec" {
